@@ -392,4 +392,95 @@ def handlePolnetWith (F : Facts) (toks : List String) : String :=
 
 def handlePolnet (toks : List String) : String := handlePolnetWith Facts.current toks
 
+/-! ### upstream lists of a verifying client: `poltls <mode> <upstream>…` (see go/harness/c16_poltls.go)
+
+The client has the CA, no insecure flag and requires security; the upstreams of one list are addressed by
+different names, are of different kinds and present different certificates.  What a dial of an upstream leads to —
+and so whether it is usable — is a function of that upstream alone (how it is addressed, what stands behind it),
+never of what was tried before it. -/
+
+inductive CertNames | both | nameonly | iponly
+  deriving DecidableEq, Repr
+
+/-- one upstream as the client is given it, and what stands behind it -/
+structure UpDesc where
+  carrier : String          -- tcptls | starttls | wss
+  byName : Bool             -- addressed as `localhost` (else as 127.0.0.1)
+  cert : CertNames          -- names on the server certificate
+  live : Bool               -- somebody listens
+  deriving DecidableEq, Repr
+
+/-- x509 hypothesis: the certificate is accepted iff it carries the name the upstream is addressed by -/
+def certCovers : CertNames → Bool → Bool
+  | .both, _ => true
+  | .nameonly, n => n
+  | .iponly, n => !n
+
+/-- usable: live and verifiable under its own name -/
+def UpDesc.usable (d : UpDesc) (live : Bool) : Bool := live && certCovers d.cert d.byName
+
+/-- what a dial leads to: verification fails inside the dial on the TLS carriers, in StartTLS on a plain socket -/
+def UpDesc.kind (d : UpDesc) (live : Bool) : Kind :=
+  if !live then .refused
+  else if certCovers d.cert d.byName then .okSecure
+  else if d.carrier == "starttls" then .hsError
+  else .refused
+
+/-- scripts (before / after the loss) of the list from index `i`; `lost` = the upstream that is gone afterwards -/
+def descScripts (lost : Option Nat) : List UpDesc → Nat → List (Kind × Kind)
+  | [], _ => []
+  | d :: ds, i => (d.kind d.live, d.kind (d.live && !(lost == some i))) :: descScripts lost ds (i + 1)
+
+def descCfg (ds : List UpDesc) (lost : Option Nat) : Cfg :=
+  { mustSecure := true, fwd := .absent, ups := descScripts lost ds 0 }
+
+/-- first usable upstream of the list (offset from the head), `after` = after the loss of `lost` -/
+def firstDesc (lost : Option Nat) (after : Bool) : List UpDesc → Nat → Option Nat
+  | [], _ => none
+  | d :: ds, i =>
+    if d.usable (d.live && !(after && lost == some i)) then some 0 else (firstDesc lost after ds (i + 1)).map (· + 1)
+
+def certOf : String → Option CertNames
+  | "both" => some .both | "nameonly" => some .nameonly | "iponly" => some .iponly | _ => none
+
+def descOf (s : String) : Option UpDesc :=
+  match s.splitOn ":" with
+  | [c, h, ce, l] =>
+    match certOf ce with
+    | some cert =>
+      if (c == "tcptls" || c == "starttls" || c == "wss") && (h == "ip" || h == "name") && (l == "live" || l == "dead") then
+        some { carrier := c, byName := h == "name", cert := cert, live := l == "live" }
+      else none
+    | none => none
+  | _ => none
+
+def handlePoltlsWith (F : Facts) (toks : List String) : String :=
+  match toks with
+  | mode :: rest =>
+    let ds := rest.map descOf
+    if rest.length < 2 ∨ rest.length > 3 ∨ ds.any Option.isNone then "bad-op"
+    else
+      let ds := ds.filterMap id
+      if mode = "fail" then
+        let o1 := (connect F (descCfg ds none) Sh.init true).2.1
+        let o2 := (connect F (descCfg ds.reverse none) Sh.init true).2.1
+        s!"fwd={outStr o1} rev={outStr o2}"
+      else if mode = "cut" then
+        let c := descCfg ds none
+        let (s1, o1, _) := connect F c Sh.init true
+        let (_, o2, _) := connect F c (envCut s1) true
+        s!"first={outStr o1} after={outStr o2}"
+      else if mode = "kill" then
+        let lost := match (connect F (descCfg ds none) Sh.init true).2.1 with
+          | .up j => some j
+          | _ => none
+        let c := descCfg ds lost
+        let (s1, o1, _) := connect F c Sh.init true
+        let (_, o2, _) := connect F c (envRestart s1) true
+        s!"first={outStr o1} after={outStr o2}"
+      else "bad-op"
+  | _ => "bad-op"
+
+def handlePoltls (toks : List String) : String := handlePoltlsWith Facts.current toks
+
 end SA.Policy
